@@ -4,7 +4,7 @@ From Tinode Require Import Pure.Url Sys.Files.
 Import ListNotations.
 
 Lemma effect_eq_none : forall e : effect, e = ENone \/ e <> ENone.
-Proof. intros e. destruct e; [left; reflexivity|right; discriminate|right; discriminate|right; discriminate]. Qed.
+Proof. intros e. destruct e; [left; reflexivity|right; discriminate..]. Qed.
 
 (* ---- where a positive answer of the key / credential checks comes from ---- *)
 Lemma key_check_source : forall keys,
@@ -89,14 +89,15 @@ Proof.
 Qed.
 
 (* ---- upload gate ---- *)
-Lemma upload_body_work : forall r,
-  effect_of (upload_body r) <> ENone ->
+(* stated for every reaction [ff] to a failed FinishUpload: serves the handler as it is and as it was *)
+Lemma upload_body_with_work : forall ff r,
+  effect_of (upload_body_with ff r) <> ENone ->
   exists total flen, u_body r = BForm total true flen /\ over_limit (u_limit r) (u_body r) = false /\
     (0 < flen)%Z /\
-    ((u_fault r = FNone /\ upload_body r = Reply 200 EStored) \/
-     (u_fault r = FFinish /\ upload_body r = Crash EResidue)).
+    ((u_fault r = FNone /\ upload_body_with ff r = Reply 200 EStored) \/
+     (u_fault r = FFinish /\ upload_body_with ff r = ff)).
 Proof.
-  intros r H. unfold upload_body in *.
+  intros ff r H. unfold upload_body_with in *.
   destruct (u_body r) as [|total hf flen] eqn:Eb; [cbn in H; congruence|].
   destruct (over_limit (u_limit r) (BForm total hf flen)) eqn:Eo; [cbn in H; congruence|].
   destruct hf; cbn [negb] in *; [|cbn in H; congruence].
@@ -106,14 +107,22 @@ Proof.
   destruct (u_fault r); cbn in H; try congruence; [left|right]; split; reflexivity.
 Qed.
 
-Lemma upload_gate_work : forall r,
-  effect_of (upload_gate r) <> ENone ->
+Lemma upload_body_work : forall r,
+  effect_of (upload_body r) <> ENone ->
+  exists total flen, u_body r = BForm total true flen /\ over_limit (u_limit r) (u_body r) = false /\
+    (0 < flen)%Z /\
+    ((u_fault r = FNone /\ upload_body r = Reply 200 EStored) \/
+     (u_fault r = FFinish /\ upload_body r = Reply 500 EResidueNoBytes)).
+Proof. intros r. exact (upload_body_with_work (Reply 500 EResidueNoBytes) r). Qed.
+
+Lemma upload_gate_with_work : forall body r,
+  effect_of (upload_gate_with body r) <> ENone ->
   (u_meth r = MPost \/ u_meth r = MPut) /\ key_check (u_keys r) = true /\
   (exists u, auth_of (u_creds r) (u_sid r) = AuthUid u /\ (u <> 0%N \/ u_newacc r = true)) /\
-  u_handler r = true /\ u_hdr r = HdrStatus 0 /\ upload_gate r = upload_body r /\
-  effect_of (upload_body r) <> ENone.
+  u_handler r = true /\ u_hdr r = HdrStatus 0 /\ upload_gate_with body r = body r /\
+  effect_of (body r) <> ENone.
 Proof.
-  intros r H. unfold upload_gate in *.
+  intros body r H. unfold upload_gate_with in *.
   destruct (u_meth r) eqn:Em; cbn [effect_of] in H; try congruence;
     try (rewrite preflight_no_effect in H; congruence).
   - (* HEAD *)
@@ -151,28 +160,81 @@ Proof.
     + right. destruct (u_newacc r); [reflexivity|discriminate].
 Qed.
 
+Lemma upload_gate_work : forall r,
+  effect_of (upload_gate r) <> ENone ->
+  (u_meth r = MPost \/ u_meth r = MPut) /\ key_check (u_keys r) = true /\
+  (exists u, auth_of (u_creds r) (u_sid r) = AuthUid u /\ (u <> 0%N \/ u_newacc r = true)) /\
+  u_handler r = true /\ u_hdr r = HdrStatus 0 /\ upload_gate r = upload_body r /\
+  effect_of (upload_body r) <> ENone.
+Proof. intros r. exact (upload_gate_with_work upload_body r). Qed.
+
 Lemma upload_methods : forall r,
   u_meth r <> MPost -> u_meth r <> MPut -> u_meth r <> MHead -> u_meth r <> MOptions ->
   upload_gate r = Reply 405 ENone.
 Proof.
-  intros r H1 H2 H3 H4. unfold upload_gate. destruct (u_meth r); try reflexivity; congruence.
+  intros r H1 H2 H3 H4. unfold upload_gate, upload_gate_with. destruct (u_meth r); try reflexivity; congruence.
+Qed.
+
+(* a reply other than 200 has no effect - except the reply to an upload whose FinishUpload
+   failed in the store: 500, and the record stays in status 'started' without bytes *)
+Lemma upload_refused_effect : forall r c e,
+  upload_gate r = Reply c e -> c <> 200%Z ->
+  e = ENone \/ (e = EResidueNoBytes /\ c = 500%Z /\ u_fault r = FFinish).
+Proof.
+  intros r c e H Hc.
+  destruct (effect_eq_none e) as [He|He]; [left; exact He|]. right.
+  assert (Hw : effect_of (upload_gate r) <> ENone) by (rewrite H; cbn; exact He).
+  destruct (upload_gate_work r Hw) as [_ [_ [_ [_ [_ [Hg Hb]]]]]].
+  destruct (upload_body_work r Hb) as [t [fl [_ [_ [_ [[_ Hs]|[Hf Hs]]]]]]];
+    rewrite Hg, Hs in H; inversion H; subst; [congruence|].
+  repeat split; try reflexivity. exact Hf.
 Qed.
 
 Lemma upload_refused_no_effect : forall r c e,
-  upload_gate r = Reply c e -> c <> 200%Z -> e = ENone.
+  upload_gate r = Reply c e -> c <> 200%Z -> u_fault r <> FFinish -> e = ENone.
 Proof.
-  intros r c e H Hc.
-  destruct (effect_eq_none e) as [He|He]; [exact He|]. exfalso.
-  assert (Hw : effect_of (upload_gate r) <> ENone) by (rewrite H; cbn; exact He).
-  destruct (upload_gate_work r Hw) as [_ [_ [_ [_ [_ [Hg Hb]]]]]].
-  destruct (upload_body_work r Hb) as [t [fl [_ [_ [_ [[_ Hs]|[_ Hs]]]]]]];
-    rewrite Hg, Hs in H; inversion H; try congruence.
+  intros r c e H Hc Hf. destruct (upload_refused_effect r c e H Hc) as [He|[_ [_ Hx]]]; [exact He|congruence].
+Qed.
+
+(* the handler answers every request it gets to work on: the only panic left is the missing
+   media handler (a configuration error), and it has no effect *)
+Lemma upload_answered : forall r e,
+  upload_gate r = Crash e -> u_handler r = false /\ e = ENone.
+Proof.
+  intros r e H. unfold upload_gate, upload_gate_with in H.
+  assert (Hb : forall x, upload_body r <> Crash x).
+  { intros x. unfold upload_body, upload_body_with.
+    destruct (u_body r) as [|t hf fl]; [discriminate|].
+    destruct (over_limit _ _); [discriminate|]. destruct (negb hf); [discriminate|].
+    destruct (fl <=? 0)%Z; [discriminate|]. destruct (u_fault r); discriminate. }
+  assert (Hp : forall h x, preflight h x = Crash e -> h = false /\ e = ENone).
+  { intros h x Hx. unfold preflight in Hx. destruct h; cbn [negb] in Hx; [destruct x; discriminate|].
+    inversion Hx. split; reflexivity. }
+  destruct (u_meth r); try discriminate; try (exact (Hp _ _ H));
+    (destruct (key_check (u_keys r)); cbn [negb] in H; [|discriminate];
+     destruct (auth_of (u_creds r) (u_sid r)) as [c| |u]; try discriminate;
+     destruct ((u =? 0)%N && negb (u_newacc r)); [discriminate|];
+     destruct (u_handler r); cbn [negb] in H; [|inversion H; split; reflexivity];
+     destruct (u_hdr r) as [c|c]; [discriminate|];
+     destruct (c =? 0)%Z; cbn [negb] in H; [|discriminate]);
+    try discriminate; exfalso; exact (Hb _ H).
 Qed.
 
 Lemma upload_refused_state : forall s r fid now mime,
   effect_of (upload_gate r) = ENone -> fst (apply_upload s r fid now mime) = s.
 Proof.
-  intros s r fid now mime H. unfold apply_upload. rewrite H. reflexivity.
+  intros s r fid now mime H. unfold apply_upload. cbn [fst]. rewrite H. reflexivity.
+Qed.
+
+(* the handler as it was: the same request is left unanswered, record and bytes stay *)
+Lemma upload_unrepaired_crash : forall r,
+  effect_of (upload_gate_unrepaired r) <> ENone -> u_fault r = FFinish ->
+  upload_gate_unrepaired r = Crash EResidue.
+Proof.
+  intros r H Hf.
+  destruct (upload_gate_with_work upload_body_unrepaired r H) as [_ [_ [_ [_ [_ [Hg Hb]]]]]].
+  destruct (upload_body_with_work (Crash EResidue) r Hb) as [t [fl [_ [_ [_ [[Hn _]|[_ Hs]]]]]]]; [congruence|].
+  unfold upload_gate_unrepaired. rewrite Hg. exact Hs.
 Qed.
 
 Lemma upload_size_limit : forall r total hf flen,
@@ -193,7 +255,7 @@ Lemma upload_size_limit_413 : forall r total hf flen,
   u_body r = BForm total hf flen -> (0 < u_limit r)%Z -> (u_limit r < total)%Z ->
   upload_body r = Reply 413 ENone.
 Proof.
-  intros r total hf flen Hb Hl Ht. unfold upload_body. rewrite Hb.
+  intros r total hf flen Hb Hl Ht. unfold upload_body, upload_body_with. rewrite Hb.
   cbn [over_limit].
   assert (H1 : (0 <? u_limit r)%Z = true) by (apply Z.ltb_lt; exact Hl).
   assert (H2 : (u_limit r <? total)%Z = true) by (apply Z.ltb_lt; exact Ht).
